@@ -54,6 +54,34 @@ Theorem C19_source_amortized : forall cap used extra, cap * 2 < W ->
 Proof. exact src_amortized_new_size_ok. Qed.
 Print Assumptions C19_source_amortized.
 
+(* the reserve machinery of RawVec as the source has it: cap(), the inlined "there is room already"
+   shortcut of both reserve_internal wrappers (the test VecModel.try_reserve makes first), and the
+   capacity asked for under either strategy *)
+Theorem C19_source_cap : forall es cap,
+  call_fn src_fns [("self", VRec [("cap", VN cap)]); ("size_of_T", VN es)] "cap" []
+  = Ret (VN (if es =? 0 then USIZE_MAX else cap)).
+Proof. exact src_cap_ok. Qed.
+
+Theorem C19_source_reserve_shortcut : forall (v : VecModel.vec) extra strat,
+  call_fn src_fns [("self", VRec [("cap", VN (VecModel.v_cap v))])] "fallible_reserve_has_room"
+          [VN (VecModel.v_len v); VN extra; strat]
+  = Ret (VB (extra <=? wsub (VecModel.v_cap v) (VecModel.v_len v))) /\
+  call_fn src_fns [("self", VRec [("cap", VN (VecModel.v_cap v))])] "infallible_reserve_has_room"
+          [VN (VecModel.v_len v); VN extra; strat]
+  = Ret (VB (extra <=? wsub (VecModel.v_cap v) (VecModel.v_len v))).
+Proof. intros v extra strat. exact (src_reserve_has_room_ok (VecModel.v_cap v) (VecModel.v_len v) extra strat). Qed.
+
+Theorem C19_source_new_cap : forall cap used extra f strat, cap * 2 < W ->
+  call_fn src_fns [("self", VRec [("cap", VN cap)])] "reserve_new_cap_exact" [VN used; VN extra; f; strat]
+  = Ret (vtry (checked_add used extra)) /\
+  call_fn src_fns [("self", VRec [("cap", VN cap)])] "reserve_new_cap_amortized" [VN used; VN extra; f; strat]
+  = Ret (vtry (match checked_add used extra with Some r => Some (N.max (cap * 2) r) | None => None end)).
+Proof. exact src_reserve_new_cap_ok. Qed.
+
+Print Assumptions C19_source_cap.
+Print Assumptions C19_source_reserve_shortcut.
+Print Assumptions C19_source_new_cap.
+
 From BV Require Import VecFacts2.
 (* extend_from_slices_copy: slice lengths that add up to 2^64 or more are refused, never wrapped *)
 Theorem C19_slices_sum_refused : forall e v slices lens,
